@@ -39,6 +39,17 @@ CLAIMS["C31"] = {
     "note": TB + "The memory model is reduced to 'an atomic RMW is one indivisible step'; OnceLock/Sync/Send of shared schemas and OS scheduling are runtime facts, explored with real threads (2-16) not proved.",
 }
 
+CLAIMS["C25"] = {
+    "technique": "Lean 4 proof (memoised DFS = expanded depth, by induction over fragment nesting and selections) + translator-checked constants + correspondence",
+    "text": "Theorems over all acyclic documents and all selection trees: the model of check_selection_set (running maximum, fragment-depth "
+            "memo, early error) fails iff MAX ≤ expanded list-field depth (depth_check_iff/_ok, for every MAX>0), never runs out of fuel, the u32 "
+            "subtraction never underflows (post_ge_depth), and replacing any spread by an inline fragment keeps the verdict (inline_eq_named). "
+            "shape_ok ties MAX_LISTS_DEPTH and the two comparisons / memo-hit update to the current source via the translator. Correspondence: "
+            "exhaustive nesting chains ≤5/6 over {list,plain,inline,spread F,spread G} × 3 fragment families + random documents, through the public "
+            "check_max_depth; oracle on impl: verdict = (expanded depth ≥ 3) and verdict(inlined) = verdict(original).",
+    "note": TB + "Documents are modelled with fragments numbered so that a fragment only spreads lower-numbered ones (any acyclic document); validation supplies acyclicity in the real code.",
+}
+
 ALL = [f"C{i:02d}" for i in range(1, 34)]
 NOT_APPLICABLE = {p: "check not built yet in this session (planned, see DESIGN.md §9); not a claim that the technique cannot apply"
                   for p in ALL if p not in CLAIMS}
